@@ -56,3 +56,22 @@ From RS Require Import TOptStmts TOptFacts.
 Theorem C15_optimiser_moves_keep_the_invariant : forall nw tours, stmt_topt_path_inv nw tours.
 Proof. exact topt_path_inv. Qed.
 Print Assumptions C15_optimiser_moves_keep_the_invariant.
+
+(** the transition optimisation as a FUNCTION (TOpt.v: the cycle TSP with the sequential first-minimum rule inside the
+    neighbourhood "exchange / move a vehicle between two cycles", the parallel minimiser as an oracle [pick] bound only by
+    the min_by contract; compared with the implementation's recorded runs on every check): whatever [pick] chooses,
+    a run from a transition with exact bookkeeping returns a transition with exact bookkeeping over the same vehicles,
+    whose (violation, counter) is not worse than what it was given, along strictly descending accepted steps, and it stops
+    only where no neighbour is strictly better *)
+From RS Require Import TOpt TOptStmts2 TOptFacts2 TOptFacts3.
+Theorem C15_optimiser_run_is_a_sequence_of_its_moves : forall nw tours, stmt_topt_run_path nw tours.
+Proof. exact topt_run_path. Qed.
+Theorem C15_optimiser_returns_same_vehicles_exact_and_not_worse : forall nw tours, stmt_topt_run_valid nw tours.
+Proof. exact topt_run_valid. Qed.
+Theorem C15_optimiser_stops_at_local_optimum : forall nw tours, stmt_topt_run_local_opt nw tours.
+Proof. exact topt_run_local_opt. Qed.
+(* non-vacuity: a run that accepts a step from the greedy transition of four vehicles, all hypotheses discharged *)
+Definition C15_optimiser_example := ex_run_valid.
+Print Assumptions C15_optimiser_run_is_a_sequence_of_its_moves.
+Print Assumptions C15_optimiser_returns_same_vehicles_exact_and_not_worse.
+Print Assumptions C15_optimiser_stops_at_local_optimum.
